@@ -102,27 +102,33 @@ class ExcelType:
 
     def __lt__(self, other):
         other = ExcelType.cast_from_native(other)
-        return Boolean(self._sort_key(other) < other._sort_key(self))
+        return Boolean(
+            bool(self._sort_key(other) < other._sort_key(self)))
 
     def __le__(self, other):
         other = ExcelType.cast_from_native(other)
-        return Boolean(self._sort_key(other) <= other._sort_key(self))
+        return Boolean(
+            bool(self._sort_key(other) <= other._sort_key(self)))
 
     def __eq__(self, other):
         other = ExcelType.cast_from_native(other)
-        return Boolean(self._sort_key(other) == other._sort_key(self))
+        return Boolean(
+            bool(self._sort_key(other) == other._sort_key(self)))
 
     def __ne__(self, other):
         other = ExcelType.cast_from_native(other)
-        return Boolean(self._sort_key(other) != other._sort_key(self))
+        return Boolean(
+            bool(self._sort_key(other) != other._sort_key(self)))
 
     def __gt__(self, other):
         other = ExcelType.cast_from_native(other)
-        return Boolean(self._sort_key(other) > other._sort_key(self))
+        return Boolean(
+            bool(self._sort_key(other) > other._sort_key(self)))
 
     def __ge__(self, other):
         other = ExcelType.cast_from_native(other)
-        return Boolean(self._sort_key(other) >= other._sort_key(self))
+        return Boolean(
+            bool(self._sort_key(other) >= other._sort_key(self)))
 
     def __int__(self):
         try:
@@ -208,7 +214,8 @@ class Number(ExcelType):
         return Number(self.value.__round__(ndigits))
 
     def __trunc__(self):
-        return Number(self.value.__trunc__())
+        # numpy scalars have no __trunc__ method.
+        return Number(int(self.value))
 
     def __number__(self):
         return self.value
